@@ -47,15 +47,19 @@ class Medium:
             return
         for r, st in list(self.nodes.items()):
             if st[2] and not st[1]:
-                st[1], st[2] = True, False
-                self.depth += 1
-                try:
-                    st[0]()
-                except Exception as exc:  # attributed to that node, reported by the harness
-                    self.errors.append((r.name, exc))
-                finally:
-                    self.depth -= 1
-                    st[1] = False
+                self._run(r)
+
+    def _run(self, r):
+        st = self.nodes[r]
+        st[1], st[2] = True, False
+        self.depth += 1
+        try:
+            st[0]()
+        except Exception as exc:  # attributed to that node, reported by the harness
+            self.errors.append((r.name, exc))
+        finally:
+            self.depth -= 1
+            st[1] = False
 
     def transmit(self, src, pkt, attempt):
         ack = None
@@ -66,6 +70,9 @@ class Medium:
             fate = "ok" if self.loss is None else self.loss(src, r, pkt, attempt)
             if fate == "pkt":
                 continue
+            if len(r.rx_fifo) >= 3 and r in self.nodes and not self.nodes[r][1] and r.listening():
+                # the receiving MCU keeps up with a burst: it drains its FIFO before the 4th payload arrives
+                self._run(r)
             res = r.receive(pkt)
             if res is not None:
                 heard.append(r.name)
